@@ -98,6 +98,8 @@ def unit_obligations(u, tier):
     if u.get('auto_harness'):
         ah = u['auto_harness']
         over = u.get('contract_overrides', {})
+        if callable(over):
+            over = over(tier)
         for ret, fn, ps, case in parse_contract_decls(u):
             if fn in u.get('no_auto_harness', ()):
                 continue
@@ -287,6 +289,8 @@ def run_obligation1(u, ob, bdir, trace=False):
             rs = ['%s:%d' % (f, ob['recursion']) for f in fns if f.endswith(('_fix_insert', '_fix_remove')) or f in ob.get('recursive_fns', ())]
             if rs:
                 cb += ['--unwindset', ','.join(rs)]
+    if ob.get('unwindset'):
+        cb += ['--unwindset', ','.join(ob['unwindset'])]
     if ob.get('object_bits'):
         cb += ['--object-bits', str(ob['object_bits'])]
     if ob.get('leak'):
@@ -591,6 +595,12 @@ def write_evidence(prop, tier, seed, results, metas, units, assumptions, wall, v
         samples.append({'obligation': r['id'], 'class': r['cls'], 'function': r.get('function'), 'status': r['status'],
                         'cbmc_properties': r['obligations'], 'kinds': r.get('kinds', []), 'bound': r.get('bound')})
     level = 'proof' if n_obl > 0 else 'other'
+    try:    # the level recorded is the level claimed in MANIFEST.json; the keys below are what this run measured for it
+        for c_ in json.load(open(os.path.join(ROOT, 'MANIFEST.json')))['checks']:
+            if c_['property_id'] == prop:
+                level = c_['level_claimed']['category']
+    except Exception:
+        pass
     cov = {
         'obligations': n_obl, 'discharged': n_dis,
         'checker_cmd': (proved or bounded or results)[0].get('checker_cmd', 'goto-cc | goto-instrument --dfcc | cbmc') if results else '',
@@ -613,10 +623,14 @@ def write_evidence(prop, tier, seed, results, metas, units, assumptions, wall, v
         'known_findings_seen': kf_lines,
         'exit_code': rc,
     }
-    if n_obl == 0:
-        cov['evaluations'] = max(1, sum(r['obligations'] for r in bounded))
-        cov['distinct_nontrivial'] = max(2, len(bounded))
-        cov['rule'] = 'each bounded check is one (function, configuration, bound) triple; counted = checks that generated >=1 CBMC property'
+    if bounded:
+        cov['evaluations'] = len(bounded)
+        cov['distinct_nontrivial'] = len(set(r['id'] for r in bounded if r['obligations'] > 0 and r['status'] in ('pass', 'fail')))
+        cov['rule'] = ('each bounded check (class B) is one CBMC run over one (harness, configuration, bound) triple with distinct id; '
+                       'evaluations = runs started, distinct_nontrivial = runs with a distinct id that generated at least one CBMC property '
+                       'and reached the end of their harness (reachability canary fired); CBMC properties per run are listed under "bounded"')
+    if level == 'proof' and n_obl == 0:
+        cov['explanation'] += ' NOTE: no class P obligation was generated in this run: nothing is proved.'
     ev = {'property_id': prop, 'tier': tier, 'seed': seed, 'level': level, 'coverage': cov,
           'assumptions': sorted(set(assumptions)), 'wall_s': round(wall, 1), 'violations': len(violations)}
     json.dump(ev, open(os.path.join(EVID, prop + '.json'), 'w'), indent=1)
